@@ -418,10 +418,10 @@ def run(chk):
         # ---- 2 code -> spec (meanwhile): scenario catalogue under explored schedules
         ejobs = []
         for name in sorted(SCEN):
-            ejobs.append((name, 'dfs', chk.seed, 20 if quick else 400))
-            ejobs.append((name, 'rnd', chk.seed + 1, 6 if quick else 150))
+            ejobs.append((name, 'dfs', chk.seed, 15 if quick else 400))
+            ejobs.append((name, 'rnd', chk.seed + 1, 5 if quick else 150))
             if name in LINE_LEVEL:
-                ejobs.append((name, 'line', chk.seed + 2, 16 if quick else 500))
+                ejobs.append((name, 'line', chk.seed + 2, 12 if quick else 500))
         corpus_file = VERIF / 'corpus' / 'X06.json'
         corpus = json.loads(corpus_file.read_text()) if corpus_file.exists() else []
         if pool is not None:
@@ -465,7 +465,7 @@ def run(chk):
             for b in bs:
                 uniq.setdefault(json.dumps(script_of(b), sort_keys=True), []).append(b)
             keys = sorted(uniq)
-            step = (6 if designs == ('fixed',) else 5 if len(keys) > 400 else 2) if quick else 1
+            step = (8 if designs == ('fixed',) else 5 if len(keys) > 400 else 2) if quick else 1
             chk.notes['scripts_' + cfg[14:-4]] = f'{len(keys)} (1 of {step} replayed)'
             for k in keys[chk.seed % step::step]:
                 jobs.append((k, nif, designs, uniq[k]))
